@@ -263,6 +263,13 @@ def run(ctx):
         ctx.violation(f)
         return
 
+    f = core.run_random(ctx, random_shard, 3000, 30000)
+    if f is not None:
+        ctx.violation(f)
+
+
+def random_shard(st, shard, nshards, payload):
+    from hypothesis import strategies as hs
     @hs.composite
     def cases(draw):
         n = draw(hs.integers(4, 5))
@@ -282,7 +289,6 @@ def run(ctx):
                 'naming': draw(hs.sampled_from(['int', 'str', 'tuple', 'mixed', 'revint'])),
                 'ctype': draw(hs.sampled_from(['list', 'set', 'tuple'])), 'V': V}
 
-    st = ctx.stats
 
     def body(inp):
         nodes = set(inp['S'] or []) | set(x for e in inp['R'] for x in e)
@@ -291,6 +297,6 @@ def run(ctx):
         st.bump('random total' if total else 'random non-total')
         return check_kripke(inp)
 
-    f = core.run_hypothesis(ctx, cases(), body, ctx.pick(800, 10000))
+    f = core.hyp_run(payload['seed'] * 1000 + shard, cases(), body, payload['n'])
     if f is not None:
-        ctx.violation(f)
+        st.failure = f
